@@ -2,6 +2,7 @@ import ClusterVerif.Spec.C01
 import ClusterVerif.Model.C01Commit
 import ClusterVerif.Gen.C01Shutdown
 import ClusterVerif.Spec.C01Folder
+import ClusterVerif.Model.C01FolderTerm
 import Driver.PinParse
 /-!
 C01 driver. One case = one history:
@@ -400,8 +401,13 @@ def answerFold (pre post : List String) : String :=
       match (steps.zip post).mapM parseFoldObs with
       | none => "bad-case parse-obs"
       | some obs =>
-        let model := Folder.runTrace {} steps
-        let arm := "arm=fold " ++ " ".intercalate (foldArms false model).eraseDups
+        -- the TERM-AWARE model (`Model/C01FolderTerm`: snapshots ordered by (term, index) as FileSnapshotStore.List does,
+        -- CurrentTerm restarting after CleanupRaft) is what the implementation is compared with; the spec stays the intended one
+        let model := Folder.runTraceT {} steps
+        let stale := Folder.staleShutdowns {} steps
+        let arm := "arm=fold " ++ " ".intercalate ((foldArms false model).eraseDups ++
+          (if stale > 0 then ["arm=fold+shutdown-snapshot-not-newest"] else []) ++
+          (if model != Folder.runTrace {} steps then ["arm=fold+term-model-differs-from-intended"] else []))
         let failed := (Folder.foldClauses obs).filter (fun c => !c.2)
         let diffs := ((model.zip obs).zipIdx).filter (fun mo => mo.1.1 != mo.1.2)
         -- signature of proposal K01e: every wrong observation is an OFFLINE read (node down) after an import that took
